@@ -24,6 +24,10 @@ pub struct PlantCase {
     pub pre_unions: Vec<(Tm, Tm)>,
     /// a second rule applied in the same apply_rewrites call (must not disturb the first: searchers run before appliers)
     pub second_rule: Option<(Tm, Tm)>,
+    /// further right-side instances that must be represented and equal to the planted instance afterwards: the planted term is an
+    /// instance of the left side in another way too (a symmetric leaf of the pattern matched in its other orientation)
+    #[serde(default)]
+    pub also_r: Vec<Tm>,
 }
 
 const FREE_PAT: [Name; 3] = [10, 11, 12]; // $k $l $m
@@ -193,8 +197,8 @@ fn decode(lang: LangId, ch: &[u16]) -> Option<PlantCase> {
         rho.insert(*f, targets.remove(src.pick(targets.len())));
     }
     let mut fresh: Name = 120;
-    let inst_l = instantiate(&lhs, &sigma, &rho, VAR_OP, &mut fresh).ok()?;
-    let inst_r = instantiate(&rhs, &sigma, &rho, VAR_OP, &mut fresh).ok()?;
+    let mut inst_l = instantiate(&lhs, &sigma, &rho, VAR_OP, &mut fresh).ok()?;
+    let mut inst_r = instantiate(&rhs, &sigma, &rho, VAR_OP, &mut fresh).ok()?;
     // context
     let k = |t: Tm| Arg::K(vec![], t);
     let in_ctx = |t: Tm, src: &mut Src| -> Tm {
@@ -236,8 +240,51 @@ fn decode(lang: LangId, ch: &[u16]) -> Option<PlantCase> {
         }
     }
     // symmetric child: make a two-slot leaf symmetric beforehand (Core only)
+    let mut also_r: Vec<Tm> = Vec::new();
     if lang == LangId::Core && src.pick(3) == 0 {
         pre_unions.push((Tm::leaf("f2", &[0, 1]), Tm::leaf("f2", &[1, 0])));
+        // the left side itself may contain an f2 leaf over two free pattern slots that occur nowhere else in it: with f2
+        // symmetric the planted term is an instance under the renaming with those two slots exchanged as well, and that
+        // instance has to fire too (its right side differs when the right pattern uses the two slots asymmetrically)
+        for st in lhs.subterms() {
+            if st.op == "f2" {
+                if let (Some(Arg::S(k)), Some(Arg::S(l))) = (st.args.first(), st.args.get(1)) {
+                    let count = |x: Name| lhs.subterms().iter().map(|u| u.args.iter().filter(|a| matches!(a, Arg::S(y) if *y == x)).count() + u.args.iter().filter(|a| matches!(a, Arg::K(bs, _) if bs.contains(&x))).count()).sum::<usize>();
+                    if k != l && rho.contains_key(k) && rho.contains_key(l) && count(*k) == 1 && count(*l) == 1 {
+                        let mut rho2 = rho.clone();
+                        rho2.insert(*k, rho[l]);
+                        rho2.insert(*l, rho[k]);
+                        // so that the two orientations are really different instances (and the planted term is not simply
+                        // symmetric in the two names), the term of one pattern variable mentions the name the slot $k stands for
+                        let mut sigma2 = sigma.clone();
+                        if pre_unions.len() == 1 {
+                            let target = rho[k];
+                            let cand: Vec<String> = sigma.iter().filter(|(_, t)| t.fv().contains(&0) && !t.fv().contains(&target)).map(|(v, _)| v.clone()).collect();
+                            if !cand.is_empty() {
+                                let v = cand[src.pick(cand.len())].clone();
+                                let m: BTreeMap<Name, Name> = [(0 as Name, target)].into_iter().collect();
+                                sigma2.insert(v.clone(), rename_free_simple(&sigma[&v], &m));
+                                let mut f3: Name = 140;
+                                if let (Ok(l2), Ok(r2)) = (instantiate(&lhs, &sigma2, &rho, VAR_OP, &mut f3), instantiate(&rhs, &sigma2, &rho, VAR_OP, &mut f3)) {
+                                    inst_l = l2;
+                                    inst_r = r2;
+                                    planted = inst_l.clone();
+                                } else {
+                                    sigma2 = sigma.clone();
+                                }
+                            }
+                        }
+                        let mut fresh2: Name = 160;
+                        if let Ok(r2) = instantiate(&rhs, &sigma2, &rho2, VAR_OP, &mut fresh2) {
+                            if r2 != inst_r {
+                                also_r.push(r2);
+                            }
+                        }
+                        break;
+                    }
+                }
+            }
+        }
         // a repeated variable whose occurrences are equal only through that symmetry: the second occurrence of an
         // f2 leaf in the instance gets its arguments swapped (the matcher has to compare the two occurrences semantically)
         let subs = planted.subterms();
@@ -309,7 +356,7 @@ fn decode(lang: LangId, ch: &[u16]) -> Option<PlantCase> {
     } else {
         None
     };
-    Some(PlantCase { lang, lhs, rhs, inst_l, inst_r, inserted, pre_unions, second_rule })
+    Some(PlantCase { lang, lhs, rhs, inst_l, inst_r, inserted, pre_unions, second_rule, also_r })
 }
 
 fn run(c: &PlantCase, obs: &mut Obs) -> Result<(), String> {
@@ -370,6 +417,22 @@ fn run_l<L: Language + 'static>(c: &PlantCase, obs: &mut Obs) -> Result<(), Stri
             c.inst_l.render(&nm),
             c.inst_r.render(&nm)
         ));
+    }
+    for r2 in &c.also_r {
+        obs.cmp(1);
+        let Some(r) = lookup_tm::<L, ()>(&eg, r2, &nm) else {
+            return Err(format!(
+                "rule {} => {}: with f2 symmetric the instance {} matches the left side in both orientations of its f2 leaf, but the right-side instance of the other orientation, {}, is not represented after one apply_rewrites",
+                render_pat(&c.lhs, &nm),
+                render_pat(&c.rhs, &nm),
+                c.inst_l.render(&nm),
+                r2.render(&nm)
+            ));
+        };
+        if !eg.eq(&l, &r) {
+            return Err(format!("rule {} => {}: the right-side instance {} of the other orientation is not equal to the instance {}", render_pat(&c.lhs, &nm), render_pat(&c.rhs, &nm), r2.render(&nm), c.inst_l.render(&nm)));
+        }
+        obs.label("both-orientations-of-a-symmetric-leaf-must-fire");
     }
     let _ = before;
     let vars: Vec<String> = c.lhs.subterms().iter().filter(|s| is_pvar(s)).map(|s| pvar_name(s).to_string()).collect();
